@@ -433,7 +433,7 @@ def render_specs(case, specs):
     for sp in specs:
         chrom = sp["chrom"]
         variants = case["variants"][chrom]
-        hap = case["haps"][sp["sample"]][chrom][sp["hap"]]
+        hap = sp.get("alleles") or case["haps"][sp["sample"]][chrom][sp["hap"]]   # "alleles": explicit allele per variant
         r = render_read(seqs[chrom], variants, hap, sp["segments"], clips=sp.get("clips"), eqx=sp.get("eqx", False))
         if r is None:
             continue
